@@ -85,8 +85,66 @@ def run(repo: Repo, chk: Check):
                       "register singleton", floor=3)
     chk.guarded(r11f, repo, chk)
     inventory(repo, chk)
+    chk.guarded(r11a_interpreter_state, repo, chk)
     r11b(repo, chk)
     r11cd(repo, chk)
+
+
+# settings of the interpreter / the process that outlive the call that changes them
+PROCESS_SETTERS = {"sys.setrecursionlimit", "sys.setswitchinterval", "sys.set_int_max_str_digits", "os.chdir", "os.umask", "os.putenv", "random.seed",
+                   "locale.setlocale", "gc.disable", "gc.enable", "gc.set_threshold", "warnings.simplefilter", "warnings.filterwarnings",
+                   "decimal.setcontext", "sys.settrace", "sys.setprofile", "resource.setrlimit", "signal.signal", "socket.setdefaulttimeout"}
+
+
+def r11a_interpreter_state(repo, chk, R="R11.a"):
+    """No function on the compile path changes a process-wide setting of the interpreter without putting the old value back: a later
+    compilation in the same process would run under other conditions than in a fresh process."""
+    n = 0
+    for mn in COMPILE_PATH:
+        if not repo.has_mod(mn):
+            continue
+        m = repo.mod(mn)
+        imports = {}
+        for st in ast.walk(m.tree):
+            if isinstance(st, ast.ImportFrom) and st.module and st.level == 0:
+                for a in st.names:
+                    imports[a.asname or a.name] = f"{st.module}.{a.name}"
+            elif isinstance(st, ast.Import):
+                for a in st.names:
+                    if a.asname:
+                        imports[a.asname] = a.name
+        for q, f in m.funcs.items():
+            if not isinstance(f, (ast.FunctionDef, ast.AsyncFunctionDef)):
+                continue
+            for c in ast.walk(f):
+                full = None
+                if isinstance(c, ast.Call):
+                    t = norm(c.func)
+                    head = t.split(".")[0]
+                    full = (imports.get(head, head) + t[len(head):]) if head in imports else t
+                elif isinstance(c, (ast.Assign, ast.AugAssign, ast.Delete)):
+                    tg = c.targets if not isinstance(c, ast.AugAssign) else [c.target]
+                    for x in tg:
+                        if isinstance(x, ast.Subscript) and norm(x.value) in ("os.environ", "sys.modules") or isinstance(x, ast.Attribute) and norm(x.value) == "sys" \
+                                and x.attr in ("path", "stdout", "stderr", "stdin", "argv", "excepthook"):
+                            full = "store into " + norm(x)[:30]
+                if full is None or not (full in PROCESS_SETTERS or full.startswith("store into ")):
+                    continue
+                n += 1
+                # restored in a 'finally' of an enclosing try by a call of the same setter?
+                restored = False
+                p_ = getattr(c, "parent", None)
+                while p_ is not None and p_ is not f:
+                    if isinstance(p_, ast.Try) and any(isinstance(x, ast.Call) and norm(x.func) == norm(c.func) for st in p_.finalbody for x in ast.walk(st)) \
+                            and isinstance(c, ast.Call):
+                        restored = True
+                    p_ = getattr(p_, "parent", None)
+                chk.judge(R, f"{mn}:{q}:{full} is undone before the call returns", restored,
+                          f"{norm(c)[:60]} changes a setting of the whole process and nothing puts the old value back: the next compilation in this process runs under "
+                          f"other conditions than the same compilation in a fresh process (a program that fails there with a recursion error compiles here, or the "
+                          f"other way round)", None, f"{m.path}:{c.lineno} in {q}")
+    if n == 0:
+        chk.ok(R, "compile path: no process-wide interpreter setting is changed", None)
 
 
 def module_level_names(m):
@@ -231,6 +289,25 @@ def inventory(repo, chk):
         srcs = {norm(x) for x in ast.walk(fn) if isinstance(x, ast.Call) and norm(x.func) in ("dir", "getattr", "hasattr", "isinstance", "vars")}
         chk.judge("R11.a", "utils:_all_hashes:filled once from constants", ok and bool(detail), f"fill sites guarded by {detail}", {"sources": sorted(srcs)},
                   f"{u.path}:{fn.lineno} in format_int")
+        # ... and nothing else in the package puts anything into the table: what a compilation adds stays there for the next one
+        for mn in COMPILE_PATH:
+            if not repo.has_mod(mn):
+                continue
+            mm = repo.mod(mn)
+            for q, f_ in mm.funcs.items():
+                if not isinstance(f_, (ast.FunctionDef, ast.AsyncFunctionDef)) or (mn == "utils" and q == "format_int"):
+                    continue
+                for c in ast.walk(f_):
+                    if isinstance(c, ast.Call) and isinstance(c.func, ast.Attribute) and c.func.attr in ("add", "update", "discard", "remove", "clear", "pop") \
+                            and norm(c.func.value) in ("_all_hashes", "utils._all_hashes") and enclosing_def(c) is f_:
+                        fc = CFG(f_)
+                        ids_ = [x.id for x in fc.nodes_of(c) if x.id in fc.reachable()]
+                        g_ = [(norm(t), p) for t, p in (fc.guards(ids_[0]) if ids_ else []) if isinstance(t, ast.expr)]
+                        once = ("_all_hashes", False) in g_ or ("utils._all_hashes", False) in g_
+                        chk.judge("R11.a", f"{mn}:{q}:changes the table of known hashes only while filling it for the first time", once,
+                                  f"{norm(c)[:60]} changes the process-wide table of known hashes during a compilation: the numbers one program mentions change how a later "
+                                  f"program's integers are spelled (decimal instead of '$' hex), and a first compilation that adds one keeps the table from ever being filled",
+                                  None, f"{mm.path}:{c.lineno} in {q}")
     if ("compiler", "_last_time") in written:
         readers = []
         for q, f in cm.funcs.items():
